@@ -27,6 +27,10 @@ RULES = {
               'on a grid containing pre-epoch instants that are not whole seconds and both range '
               'limits (i64 semantics: truncating / and %, Euclidean div_euclid / rem_euclid, '
               'checked operations)',
+    'TIME.trunc': 'truncation to a whole number of months counts months from zero (a period starts '
+                  'at a multiple of the month count: January for counts dividing 12) and resets the day '
+                  'of the month and the time of day, so the result is the first instant of the period; '
+                  'subtracting whole months alone keeps both',
     'NAT.ctor': 'From<Option<_>> / Default / from_opt constructors map None to NaT',
 }
 
@@ -514,3 +518,37 @@ def check_cr_table(run, F):
                    % src(fn.hir)[:70])
     run.floor('TBL.cr', 'DateTime <-> chrono conversions', n, 8)
     return n
+
+
+def check_trunc(run, F):
+    """TIME.trunc on DateTime::duration_trunc: every path with a positive month count"""
+    fs = [f for f in F.fns if f.crate == 'tea_time' and f.qpath.endswith('DateTime::<U>::duration_trunc')]
+    if len(fs) != 1:
+        run.ob('TIME.trunc', 'tea_time', 'duration_trunc', False, '', 'function not found')
+        return 0
+    fn = fs[0]
+    t = N.tbl(fn)
+    rows = [(cs, l, ef) for cs, l, ef in t if '(0 < duration.months)' in cs and l != 'PANIC']
+    bad0, badd, badt = [], [], []
+    for cs, l, ef in rows:
+        text = ' ; '.join(ef) + ' ; ' + l
+        zero_based = ('.month0()' in text and '.month()' not in text) or \
+            (re.search(r'\(\S+\.month\(\) - 1\)', text) and '.month0()' not in text and
+             len(re.findall(r'\.month\(\)', text)) == len(re.findall(r'\(\S+\.month\(\) - 1\)', text)))
+        day = re.search(r'with_day\(1\)|with_day0\(0\)|from_ymd_opt\([^,()]+, [^,()]+, 1\)', text)
+        tim = re.search(r'with_time\(NaiveTime::MIN\)|and_time\(NaiveTime::MIN\)|and_hms_opt\(0, 0, 0\)', text)
+        if not zero_based:
+            bad0.append(sorted(cs))
+        if not day:
+            badd.append(sorted(cs))
+        if not tim:
+            badt.append(sorted(cs))
+    run.ob('TIME.trunc', fn, 'month paths exist', len(rows) >= 2, fn.loc(), '%d path(s) with a positive month count' % len(rows))
+    run.ob('TIME.trunc', fn, 'months counted from zero', not bad0 and bool(rows), fn.loc(),
+           'the modulus is taken of 12*year + a zero-based month on every month path' if not bad0 else
+           'a one-based month enters the modulus (periods would start in March / June / .. / December) under %s' % bad0[:1])
+    run.ob('TIME.trunc', fn, 'day of month reset', not badd and bool(rows), fn.loc(),
+           'every month path sets the day to 1' if not badd else 'no day reset under %s: subtracting months keeps the day' % badd[:1])
+    run.ob('TIME.trunc', fn, 'time of day reset', not badt and bool(rows), fn.loc(),
+           'every month path sets the time to midnight' if not badt else 'no time reset under %s: subtracting months keeps the time' % badt[:1])
+    return 4
